@@ -404,7 +404,14 @@ def run(ctx):
     agent_ids = ops.shuffle(["0", "1", "a", "rover-1", "rover-2", "truck-a", "truck-b", "x_1", "a1", "a10"])[:nfiles]
     ctx.agent_ids = agent_ids
     for i, F in enumerate(files):
-        txt = G.render_domain(F)
+        private = None
+        if len(F["predicates"]) >= 2 and ops.draw(3) == 0:
+            # MA-PDDL: some predicates of the agent's file are declared inside a (:private ...) group, which may stand
+            # before, between or after the other declarations
+            names_ = sorted(F["predicates"])
+            private = ([n for n in names_ if ops.draw(2)], ops.draw(len(names_) + 1))
+            ctx.probes["agent_file_with_private_group"] += 1
+        txt = G.render_domain(F, private=private)
         texts.append(txt)
         fs.write_real(ddir / f"domain-{agent_ids[i]}.pddl", txt)
     fs.write_real(ddir / "notes.txt", "not a domain")
